@@ -20,7 +20,7 @@ import time
 from typing import Any, Dict, List, Optional, Set, Tuple
 
 from .engine import Ctx, SXControl
-from .env import ALL_COMPLETED, HarnessError
+from .env import ALL_COMPLETED, DEFAULT_EXECUTOR_WORKERS, HarnessError
 
 REAL_WAIT = cf.wait
 REAL_POOL = cf.ThreadPoolExecutor
@@ -228,6 +228,16 @@ class AsyncioProxy:
         with w.lock:
             w.monitor.dispatched(label)
         return task
+
+    async def to_thread(self, func: Any, *args: Any, **kwargs: Any) -> Any:
+        """asyncio.to_thread on an instrumented stand-in for the loop's default executor (same size as the model's)."""
+        w = self._w
+        if getattr(w, "default_pool", None) is None:
+            w.default_pool = type("RealDefaultPool", (RealPool,), {"world": w})(max_workers=DEFAULT_EXECUTOR_WORKERS)
+            w.pools.append(w.default_pool)
+        ctx = contextvars.copy_context()
+        loop = real_asyncio.get_running_loop()
+        return await loop.run_in_executor(w.default_pool, functools.partial(ctx.run, func, *args, **kwargs))
 
     async def wait(self, fs: Any, *, timeout: Any = None, return_when: str = ALL_COMPLETED) -> Any:
         w = self._w
